@@ -25,10 +25,20 @@ func (c *Ctx) isNew(fn *ssa.Function) bool {
 	if fn.Pkg != c.Pkg {
 		return false
 	}
+	if transparentKnown[c.fname(fn)] {
+		return true
+	}
 	if c.allKnown {
 		return false
 	}
 	return !knownFuncs[c.fname(fn)]
+}
+
+// transparentKnown: small single-caller helpers of the pinned tree that maintainers inline and re-extract at will.
+// They are always looked through (as a new helper would be), so that the rules about them are written once, over the
+// code of their caller, and hold whether or not the helper exists as a function.
+var transparentKnown = map[string]bool{
+	"(*Parser).splitShortConcatArg": true,
 }
 
 // inlineSite returns the unique static call site of a new function (nil if it
